@@ -32,19 +32,61 @@ where
         self.0.step(last, action).next
     }
     fn within_boundary(&self, state: &Self::State) -> bool {
-        self.0.within_bounds(state)
+        self.0.within_bounds(state) && self.0.within_bounds_new(state)
     }
     fn properties(&self) -> Vec<Property<Self>> {
         vec![Property::always("explore everything", |_, _| true)]
     }
 }
 
-/// Returns stateright's unique state count for the system (BFS, all cores).
-pub fn stateright_unique_states<Y>(sys: Y) -> u64
+/// Returns stateright's unique state count for the system (BFS, all cores), or None when stateright did not finish
+/// within `timeout_s` (the count would then be a lower bound only and is not compared).
+pub fn stateright_unique_states<Y>(sys: Y, timeout_s: u64) -> Option<u64>
 where
     Y: System + Send + Sync + 'static,
     Y::State: Clone + Debug + Hash + Eq + Send + Sync + 'static,
 {
-    let checker = SrAdapter(sys).checker().threads(crate::util::threads()).spawn_bfs().join();
-    checker.unique_state_count() as u64
+    let t0 = std::time::Instant::now();
+    let checker = SrAdapter(sys)
+        .checker()
+        .threads(crate::util::threads())
+        .timeout(std::time::Duration::from_secs(timeout_s))
+        .spawn_bfs()
+        .join();
+    if t0.elapsed().as_secs() >= timeout_s {
+        return None;
+    }
+    Some(checker.unique_state_count() as u64)
+}
+
+/// Cross-checks one run of the own explorer (looked up by name in `runs`) against stateright. Skipped, with a
+/// note, when the own run did not reach its fixed point (then there is no number to compare) or stateright ran
+/// out of time; a completed comparison that disagrees is a machinery error.
+pub fn cross_check<Y>(rep: &mut crate::report::Report, xs: &mut Vec<serde_json::Value>, runs: &[serde_json::Value], sys: Y)
+where
+    Y: System + Send + Sync + 'static,
+    Y::State: Clone + Debug + Hash + Eq + Send + Sync + 'static,
+{
+    use serde_json::json;
+    let name = sys.name();
+    let run = runs.iter().find(|r| r["run"] == json!(name));
+    let Some(run) = run else {
+        xs.push(json!({"run": name, "skipped": "the own explorer did not perform this run"}));
+        return;
+    };
+    if run["fixed_point"] != json!(true) {
+        xs.push(json!({"run": name, "skipped": "the own explorer did not reach a fixed point on this run"}));
+        return;
+    }
+    let mine = run["states"].as_u64().unwrap_or(0);
+    let timeout_s = if rep.ctx.tier.thorough() { 600 } else { 60 };
+    match stateright_unique_states(sys, timeout_s) {
+        None => xs.push(json!({"run": name, "skipped": format!("stateright did not finish within {} s", timeout_s), "own_explorer_states": mine})),
+        Some(sr) => {
+            xs.push(json!({"run": name, "stateright_unique_states": sr, "own_explorer_states": mine, "equal": sr == mine}));
+            if sr != mine {
+                rep.machinery_errors.push(format!("E5 cross-check: stateright found {} unique states for {}, the own explorer {}", sr, name, mine));
+            }
+        }
+    }
 }
